@@ -856,7 +856,7 @@ def rule_truncation(chk, mod):
 
 
 # ----------------------------------------------------------------------------
-def analyse(chk):
+def _analyse_own(chk):
     prog = pf.Program(chk.tree, [GG, GI])
     mod = prog.module(GG)
     imod = prog.module(GI)
@@ -903,6 +903,12 @@ def analyse(chk):
         "orthonormality of the tabulated harmonics under each shell's quadrature (numerical)",
         "equality of points/weights with pyscf.dft.gen_grid.Grids for the same settings (needs execution)",
     ]
+
+
+def analyse(chk):
+    _analyse_own(chk)
+    chk.guard(lambda c_: core.include_findings(c_, 'C10', files=['ciderpress/lib/mod_cider/cider_grids.c', 'ciderpress/lib/mod_cider/sph_harm.c'], rules=None,
+                                               why='a data race in the harmonic tabulation corrupts ylm'))
 
 
 def mutants(tree):
